@@ -13,10 +13,10 @@ CHUNK = 8
 
 
 def plan(ctx):
-    n = ctx.n(2500, 60000)
+    n = ctx.n(7000, 120000)
     items = [('gen', engine.stable_hash((ctx.seed, 'c01', i))) for i in range(n)]
-    items += [('combined', engine.stable_hash((ctx.seed, 'c01c', i))) for i in range(ctx.n(700, 15000))]
-    items += [('real', engine.stable_hash((ctx.seed, 'c01r', i))) for i in range(ctx.n(200, 4000))]
+    items += [('combined', engine.stable_hash((ctx.seed, 'c01c', i))) for i in range(ctx.n(2000, 30000))]
+    items += [('real', engine.stable_hash((ctx.seed, 'c01r', i))) for i in range(ctx.n(400, 6000))]
     return items
 
 
